@@ -185,6 +185,20 @@ def evaluate(c):
                 dv = max(dv, abs(et[j, i] - rf[0]), abs(ep[j, i] - rf[1]))
         chk('FF-SUM-2nd-' + what, dv / max(np.abs(ref_m).max(), 1e-300), 1e-4, 'second request (%s start changed) differs from the pulse-point radiation sum' % what)
         canon.append('%s|2nd-%s' % (name, what))
+    # 7. time measurement switched on (-T): the tables of a power / distance request are the same as without it
+    import contextlib, io
+    et0, ep0, g0_ = obs.far(m, zen, azi, pwr=100., dist=1000.)
+    m.do_timing = True
+    try:
+        with contextlib.redirect_stderr(io.StringIO()):
+            et1, ep1, g1_ = obs.far(m, zen, azi, pwr=100., dist=1000.)
+    finally:
+        m.do_timing = False
+    ntr += 2
+    dv = max(np.abs(np.array(et1) - np.array(et0)).max(), np.abs(np.array(ep1) - np.array(ep0)).max()) / (np.abs(np.array(et0)).max() + np.abs(np.array(ep0)).max() + 1e-300)
+    chk('TIMING-VM', dv, 1e-12, 'V/m table for 100 W at 1000 m changes when time measurement is switched on')
+    chk('TIMING-DBI', float(np.abs(np.array(g1_) - np.array(g0_))[np.array(g0_) > -200].max()) if (np.array(g0_) > -200).any() else 0.0, 1e-9, 'dBi table changes when time measurement is switched on')
+    canon.append('%s|timing' % name)
     special = ground or 'wires' in c or geom.junction_degree(case) >= 2
     return dict(viol=viol[:8], canon=canon, nontriv=bool(special), trans=ntr + len(ths) * len(phs), traces=len(ths) * len(phs) * (2 if do_exact else 1),
                 evals=ntr, dev=worst, outcome='%s,exact=%s' % (c['env'], bool(do_exact)), note=dict(worst=wn, name=name))
